@@ -292,6 +292,59 @@ func ruleCov2(c *Ctx) []*Ob {
 		}
 		return ""
 	}
+	// the store's persistence decisions: a branch of persist / compact / compactMaybe whose condition is computed
+	// from the incoming stack through a segmentStack method must use a children-aware one
+	for _, fnn := range []string{"(*Store).persist", "(*Store).compact", "(*Store).compactMaybe"} {
+		f := c.Fn(fnn)
+		for _, b := range f.Blocks {
+			iff, ok := b.Instrs[len(b.Instrs)-1].(*ssa.If)
+			if !ok {
+				continue
+			}
+			var calls []*ssa.Call
+			collect := func(v ssa.Value) {
+				backSlice(v, func(w ssa.Value) bool {
+					switch x := w.(type) {
+					case *ssa.Call:
+						if h := x.Call.StaticCallee(); h != nil && h.Pkg == c.Moss && h.Signature.Recv() != nil && typeName(h.Signature.Recv().Type()) == "segmentStack" {
+							calls = append(calls, x)
+						}
+					case *ssa.UnOp:
+						// a field of the struct a segmentStack method returned (ss.Stats().CurOps)
+						if x.Op == token.MUL {
+							if fa, isFA := x.X.(*ssa.FieldAddr); isFA {
+								if call, isCall := fa.X.(*ssa.Call); isCall {
+									if h := call.Call.StaticCallee(); h != nil && h.Pkg == c.Moss && h.Signature.Recv() != nil && typeName(h.Signature.Recv().Type()) == "segmentStack" {
+										calls = append(calls, call)
+									}
+								}
+							}
+						}
+					}
+					return false
+				})
+			}
+			cond := iff.Cond
+			if cmp, isB := cond.(*ssa.BinOp); isB {
+				if isNilConst(cmp.X) || isNilConst(cmp.Y) {
+					continue // a nil test of the result, not a measure
+				}
+				collect(cmp.X)
+				collect(cmp.Y)
+			} else {
+				collect(cond)
+			}
+			for _, call := range calls {
+				h := call.Call.StaticCallee()
+				okA := childrenAware(h)
+				why := h.Name() + "() looks at the stack's children too"
+				if !okA {
+					why = "the decision is taken from " + h.Name() + "(), which never reads childSegStacks: a persistence round whose data lives only in child collections is misjudged (e.g. skipped as clean, its data dropped)"
+				}
+				o.add(fnn, "branch on incoming stack's "+h.Name()+"()", c.instrPos(iff), okA, why)
+			}
+		}
+	}
 	for _, f := range c.Funcs {
 		if !collectionMethod(f) {
 			continue
